@@ -830,9 +830,109 @@ def check_lazy(recipe, ctx):
 
 
 
+# ---------------------------------------------------------------------------
+# an Iter whose stream is consumed by the ENCLOSING spec (not by a later chain step): Invoke / Call arguments, Fold
+
+class _ConsumeAll(object):
+    """list() with a short, address-free repr (truncated trace lines are compared by prefix)"""
+    __name__ = 'consume_all'
+
+    def __call__(self, it):
+        return list(it)
+
+    def __repr__(self):
+        return 'consume_all'
+
+
+consume_all = _ConsumeAll()
+
+
+def gen_enclosed(draw):
+    S_ = st.sampled_from
+    return {'pre': draw(S_([0, 1, 2])), 'fail': draw(S_(['path', 'tstep', 'glomerror', 'valueerror'])), 'failat': draw(S_([0, 1])),
+            'how': draw(S_(['iter', 'iter', 'map'])), 'enclose': draw(S_(['invoke', 'call', 'fold', 'invoke-in-dict'])),
+            'post': draw(S_([0, 1]))}
+
+
+def check_enclosed(recipe, ctx):
+    from glom import Fold
+    sub = FailAt(recipe['fail'], recipe['failat'])
+    it = Iter(sub) if recipe['how'] == 'iter' else Iter().map(sub)
+    enc = {'invoke': lambda: Invoke(consume_all).specs(it), 'call': lambda: Call(consume_all, args=(it,)),
+           'fold': lambda: Fold(it, list, op=lambda acc, v: acc + [v]),
+           'invoke-in-dict': lambda: {'k': Invoke(consume_all).specs(it)}}[recipe['enclose']]()
+    steps = [OkStep(i) for i in range(recipe['pre'])] + [Probe(77, 'list'), enc] + [OkStep(30 + i) for i in range(recipe['post'])]
+    full = tuple(steps)
+    target = Named('root-target')
+    where = 'spec=%s' % ADDR.sub('', repr(full))[:300]
+    try:
+        glom.glom(target, full)
+        raise HarnessBug('enclosed lazy spec does not fail')
+    except HarnessBug:
+        raise
+    except GlomError as e:
+        err = e
+    except Exception:
+        ctx.label('not-wrapped')
+        return
+    wrapped = err.__dict__.get('_GlomError__wrapped', err)
+    text = str(err)
+    lines = text.split('\n')
+    parsed = []
+    for ln in lines[2:]:
+        p_ = parse_line(ln)
+        if p_ is None:
+            break
+        parsed.append(p_)
+    spec_lines = [(i, p_[3]) for i, p_ in enumerate(parsed) if p_[2] == 'Spec']
+
+    def at(spec_obj):
+        full_ = ADDR.sub('', fmtval(spec_obj, 0))
+        hits = [i for i, shown in spec_lines if shown_matches(ADDR.sub('', shown), full_)]
+        if len(hits) > 1:
+            raise Mismatch('lazy-duplicate-line', '%s: the spec %s is listed %d times:\n%s' % (where, full_[:60], len(hits), text))
+        if not hits:
+            raise Mismatch('path-spec-missing', '%s: the spec %s of the failing path is not listed:\n%s' % (where, full_[:80], text))
+        return hits[0]
+    inner = [sub] if recipe['fail'] in ('glomerror', 'valueerror') else [sub, 'missing_lazy' if recipe['fail'] == 'path' else T['nope_lazy']]
+    path_specs = [full] + steps[:recipe['pre'] + 2]
+    if recipe['enclose'] == 'invoke-in-dict':
+        path_specs.append(enc['k'])
+    path_specs += [it] + inner
+    order = [at(x) for x in path_specs]
+    if order != sorted(order):
+        raise Mismatch('lazy-order', '%s: chain -> steps -> enclosing spec -> Iter -> sub-spec are not listed in this order:\n%s' % (where, text))
+    for x in steps[recipe['pre'] + 2:]:
+        full_ = fmtval(x, 0)
+        if any(shown_matches(shown, full_) for _, shown in spec_lines):
+            raise Mismatch('stale-spec-line', '%s: the step %r after the failing one was never evaluated but is listed:\n%s' % (where, x, text))
+    item = 'item77_' + 'ab'[recipe['failat']]
+    above = [p_[3] for p_ in parsed[:order[-1]] if p_[2] == 'Target']
+    if not above or above[-1] != item:
+        raise Mismatch('innermost-target', '%s: the failing sub-spec received %s but the target shown above it is %r:\n%s'
+                       % (where, item, above[-1] if above else None, text))
+    tail = lines[2 + len(parsed):]
+    want = ADDR.sub('', exc_line(wrapped)).split('\n')
+    if ADDR.sub('', '\n'.join(tail)).rstrip('\n').split('\n')[-len(want):] != want:
+        raise Mismatch('final-line', '%s: the message does not end with the original error:\n%s' % (where, text))
+    ctx.label('enclose-' + recipe['enclose'])
+    ctx.nontrivial(True)
+    ctx.outcome([ADDR.sub('', repr(full))[:140], type(wrapped).__name__])
+
+
+
+def is_call_args_lazy(recipe, mm):
+    """known finding F36: Call(f, args=(Iter(sub),)) - the arguments are evaluated in a finished, unchained scope between
+    the Call and the Iter, so a failure raised while f consumes the stream is never recorded on the way up"""
+    return recipe.get('enclose') == 'call' and mm.kind == 'path-spec-missing'
+
+
+CLASSIFIERS = {'F36-call-args-lazy': is_call_args_lazy}
+
 SUBS = [
     Sub('trace', check, gen=gen, quick=3000, thorough=10000,
         floors={'branch-point': 0.1, 'recovered-branch': 0.1, 'depth-3': 0.05, 'linear-exact': 0.1}),
     Sub('lazy', check_lazy, gen=gen_lazy, quick=800, thorough=3000, floors={'steps-between': 0.2, 'lazy-map': 0.05, 'fails-after-consumer': 0.15}),
+    Sub('enclosed', check_enclosed, gen=gen_enclosed, quick=400, thorough=1500),
     fuzzrun.fuzz_sub('fuzz-trace', 'hyp:c05:trace', runs=30000, campaigns=4, replay_sub='trace'),
 ]
